@@ -75,6 +75,14 @@ struct C<'a> {
     my_addr: IpAddr,
     next_id: u32,
     final_phase: bool,
+    frag_mode: bool,
+    /// instant of the poll before the current one
+    prev_poll: i64,
+    this_poll: i64,
+    /// announcements carried by the frames waiting in the device's receive queue (same order)
+    rx_meta: VecDeque<Option<(IpAddr, [u8; 6])>>,
+    /// egress fragments: IPv4 ident -> link-layer destination of the first fragment
+    frag_l2: BTreeMap<u16, [u8; 6]>,
 }
 
 impl<'a> C<'a> {
@@ -165,6 +173,12 @@ pub fn run(tape: &mut Tape, props: Props, thorough: bool, trace_on: bool) -> Out
     cfg.mac = V_MAC;
     cfg.addrs = vec![(ip_of(v6, 1), if v6 { 64 } else { 24 })];
     cfg.seed = 5 + tape.draw(1 << 16);
+    // some IPv4 runs use a small link MTU: datagrams are fragmented on egress and the fragments of one
+    // datagram leave over several polls (device back-pressure) while other neighbours keep talking to the node
+    let frag_mode = !v6 && tape.draw(3) == 2;
+    if frag_mode {
+        cfg.mtu = 300 + 14;
+    }
     let mut node = build_node(&cfg);
     let view = cfg.view();
     let nn = 2 + tape.draw(if thorough { 12 } else { 11 }) as usize;
@@ -176,11 +190,11 @@ pub fn run(tape: &mut Tape, props: Props, thorough: bool, trace_on: bool) -> Out
     nbs.push(Nb { ip: ip_of(v6, 253), mac: [2, 0, 0, 0, 2, 2], policy: Policy::Timely });
     let mut socks = vec![];
     for k in 0..3u16 {
-        let mut s = udp::Socket::new(udp::PacketBuffer::new(vec![udp::PacketMetadata::EMPTY; 4], vec![0u8; 512]), udp::PacketBuffer::new(vec![udp::PacketMetadata::EMPTY; 8], vec![0u8; 1024]));
+        let mut s = udp::Socket::new(udp::PacketBuffer::new(vec![udp::PacketMetadata::EMPTY; 4], vec![0u8; 512]), udp::PacketBuffer::new(vec![udp::PacketMetadata::EMPTY; 8], vec![0u8; 4096]));
         s.bind(7000 + k).unwrap();
         socks.push((node.sockets.add(s), 7000 + k, VecDeque::new()));
     }
-    let desc = format!("neighbours v6={} on-link-neighbours={} (cache slots 8)", v6, nn);
+    let desc = format!("neighbours v6={} on-link-neighbours={} (cache slots 8) egress-fragmentation={}", v6, nn, frag_mode);
     let mut c = C {
         tape,
         props,
@@ -204,6 +218,11 @@ pub fn run(tape: &mut Tape, props: Props, thorough: bool, trace_on: bool) -> Out
         my_addr: ip_of(v6, 1),
         next_id: 0,
         final_phase: false,
+        frag_mode,
+        prev_poll: 0,
+        this_poll: 0,
+        rx_meta: VecDeque::new(),
+        frag_l2: BTreeMap::new(),
     };
     let r = body(&mut c, thorough);
     let nontrivial = c.stats.get("neigh.unicast-frames-checked") >= 3 && c.stats.get("neigh.solicitations") >= 2;
@@ -281,6 +300,8 @@ fn announce(c: &mut C, who: usize, at: i64, kind: u8, solicited_by: Option<(IpAd
 }
 
 fn poll(c: &mut C) -> Result<(), Violation> {
+    c.prev_poll = c.this_poll;
+    c.this_poll = c.now;
     c.events += 1;
     c.hash.u64(c.now as u64);
     c.inflight.sort_by_key(|x| (x.0, x.1));
@@ -290,17 +311,29 @@ fn poll(c: &mut C) -> Result<(), Violation> {
         }
         let (_, _, f, ann) = c.inflight.remove(0);
         c.hash.bytes(&f);
-        // a valid announcement counts from the poll that ingests it
-        if let Some((ip, mac)) = ann {
-            // the node only listens to announcements addressed to one of its current addresses; the model is
-            // an over-approximation (learned := could have been learned)
-            c.learned.insert((ip, mac), c.now);
+        if c.trace_on {
+            let sm = decode_frame(Medium::Ethernet, &f, &Verify::none()).map(|p| p.summary()).unwrap_or_else(|_| "(undecodable)".into());
+            c.log(|| format!("V rx {} [counts as valid announcement: {:?}]", sm, ann));
         }
+        // a valid announcement counts from the poll that actually ingests it (under device back-pressure a
+        // frame may sit in the device's receive queue for several polls)
+        c.rx_meta.push_back(ann);
         c.node.dev.rx.push_back(f);
         c.stats.inc("frames.delivered");
     }
     let now = c.now;
+    let nrx = c.node.dev.rx.len();
+    c.log(|| format!("poll ({} frame(s) delivered)", nrx));
+    c.node.dev.tx_budget = if c.frag_mode && !c.final_phase && c.tape.draw(2) == 0 { Some(1 + c.tape.draw(2) as usize) } else { None };
     let info = c.node.poll(now)?;
+    c.node.dev.tx_budget = None;
+    while c.rx_meta.len() > c.node.dev.rx.len() {
+        if let Some(Some((ip, mac))) = c.rx_meta.pop_front() {
+            // the node only listens to announcements addressed to one of its current addresses; the model is
+            // an over-approximation (learned := could have been learned)
+            c.learned.insert((ip, mac), c.now);
+        }
+    }
     for raw in &info.tx {
         c.hash.bytes(raw);
         c.stats.inc("frames.tx");
@@ -309,6 +342,32 @@ fn poll(c: &mut C) -> Result<(), Violation> {
         on_tx(c, &p)?;
     }
     Ok(())
+}
+
+/// A neighbour sends the node a valid, large ICMP echo request as IPv4 fragments (the reply has to be
+/// fragmented too, or is dropped while the fragmenter is busy).
+fn big_echo_from_neighbour(c: &mut C) {
+    let nn = c.nbs.len();
+    let who = c.tape.draw(nn as u64) as usize;
+    let src = c.nbs[who].ip.clone();
+    let mac = c.nbs[who].mac;
+    let dst = c.my_addr.clone();
+    let n = c.tape.range(300, 900) as usize;
+    let data: Vec<u8> = (0..n).map(|i| (i * 7) as u8).collect();
+    let l4 = enc_icmp(false, &src, &dst, 8, 0, [0x55, 0x55, 0, 1], &data);
+    let ident = 0x6000 + c.tape.draw(4096) as u16;
+    let mut off = 0;
+    let mut k = 0i64;
+    while off < l4.len() {
+        let end = (off + 272).min(l4.len());
+        let o = V4Opts { ident, df: false, mf: end < l4.len(), frag_off: off, tos: 0 };
+        let f = enc_eth(V_MAC, mac, ETH_IPV4, &enc_ipv4(src.v4(), dst.v4(), P_ICMP, 64, &o, &l4[off..end]));
+        // traffic from an on-link neighbour confirms (ip, mac)
+        push_frame(c, c.now + 1_000 + k, f, Some((src.clone(), mac)));
+        off = end;
+        k += 1;
+    }
+    c.stats.inc("neigh.big-echo-requests-from-neighbours");
 }
 
 fn on_tx(c: &mut C, p: &Packet) -> Result<(), Violation> {
@@ -372,13 +431,19 @@ fn on_tx(c: &mut C, p: &Packet) -> Result<(), Violation> {
         return Ok(());
     }
     c.stats.inc("neigh.unicast-frames-checked");
-    if on {
+    // later fragments of a datagram follow its first fragment (checked below); freshness is judged at the first
+    let later_fragment = ip.v4.as_ref().map(|v| v.frag_off > 0).unwrap_or(false);
+    if on && !later_fragment {
         let nh = next_hop(c, &ip.dst);
         let Some(nh) = nh else {
             return Err(viol("C16", "next-hop", "C16.route/sent-without-route", format!("unicast frame to {} sent although the destination is off-link and no unexpired route matches: {}", ip.dst, sm)));
         };
         let t = c.learned.get(&(nh.clone(), eth.dst)).copied();
-        let fresh = t.map(|t| c.now - t < 60_000_000).unwrap_or(false);
+        // a fragmented datagram is resolved when it enters the fragmenter, possibly one poll before its first
+        // fragment can leave (device back-pressure): the entry must have been fresh at that poll
+        let is_frag = ip.v4.as_ref().map(|v| v.mf).unwrap_or(false);
+        let at = if is_frag { c.prev_poll.min(c.now) } else { c.now };
+        let fresh = t.map(|t| at - t < 60_000_000).unwrap_or(false);
         if !fresh {
             let why = if eth.dst[0] & 1 == 1 {
                 "non-unicast-or-guessed-hardware-address"
@@ -397,6 +462,41 @@ fn on_tx(c: &mut C, p: &Packet) -> Result<(), Violation> {
                 format!("C16.l2dst/{}", why),
                 format!("unicast frame to {} (next hop {}) sent to hardware address {:02x?} at t={} us; valid announcements for that next hop: {:?} ; {}", ip.dst, nh, eth.dst, c.now, c.learned.iter().filter(|((i, _), _)| *i == nh).map(|((_, m), t)| (*m, *t)).collect::<Vec<_>>(), sm),
             ));
+        }
+    }
+    // ---- all fragments of one datagram go where its first fragment went
+    if let Some(v4) = &ip.v4 {
+        if v4.mf || v4.frag_off > 0 {
+            c.stats.inc("neigh.egress-fragments");
+            if v4.frag_off == 0 {
+                c.frag_l2.insert(v4.ident, eth.dst);
+            } else if let Some(first) = c.frag_l2.get(&v4.ident) {
+                if *first != eth.dst {
+                    let msg = format!("fragment at offset {} of the datagram with ident {} to {} went to hardware address {:02x?}, its first fragment to {:02x?}", v4.frag_off, v4.ident, ip.dst, eth.dst, first);
+                    if c.props.has("C12") {
+                        return Err(viol("C12", "tx-fragments", "C12.tx/fragments-of-one-datagram-to-different-hardware-addresses", msg));
+                    }
+                    if on {
+                        return Err(viol("C16", "next-hop", "C16.l2dst/fragments-of-one-datagram-to-different-hardware-addresses", msg));
+                    }
+                }
+            }
+            // first fragment of a UDP datagram of ours: it is the head of its socket's queue
+            if v4.frag_off == 0 && ip.proto == P_UDP && ip.payload.len() >= 8 {
+                let sport = u16::from_be_bytes([ip.payload[0], ip.payload[1]]);
+                let dport = u16::from_be_bytes([ip.payload[2], ip.payload[3]]);
+                let part = &ip.payload[8..];
+                if let Some(k) = c.socks.iter().position(|s| s.1 == sport) {
+                    let head_ok = c.socks[k].2.front().map(|q| q.dst == ip.dst && q.dport == dport && q.payload.len() >= part.len() && q.payload[..part.len()] == *part).unwrap_or(false);
+                    if head_ok {
+                        c.socks[k].2.pop_front();
+                        c.stats.inc("neigh.datagrams-transmitted");
+                    } else if on {
+                        return Err(viol("C16", "queue", "C16.queue/earlier-datagram-lost-while-unresolved", format!("socket :{} started transmitting a fragmented datagram to {}:{} that is not the head of its queue ({} queued)", sport, ip.dst, dport, c.socks[k].2.len())));
+                    }
+                }
+            }
+            return Ok(());
         }
     }
     // ---- socket FIFO: nothing lost while unresolved
@@ -429,7 +529,8 @@ fn app(c: &mut C) -> Result<(), Violation> {
     let dst = pick_dst(c);
     c.next_id += 1;
     let mut payload = c.next_id.to_be_bytes().to_vec();
-    payload.extend_from_slice(&vec![0x5a; c.tape.draw(20) as usize]);
+    let extra = if c.frag_mode && c.tape.draw(2) == 0 { c.tape.range(280, 1000) as usize } else { c.tape.draw(20) as usize };
+    payload.extend_from_slice(&vec![0x5a; extra]);
     let dport = 9000 + c.tape.draw(4) as u16;
     let h = c.socks[k].0;
     let so = c.node.sockets.get_mut::<udp::Socket>(h);
@@ -498,6 +599,7 @@ fn scenario_switch(c: &mut C) -> Result<(), Violation> {
             c.stats.inc("neigh.route-table-changed");
             set_routes(c)?;
         }
+        10 | 11 if c.frag_mode => big_echo_from_neighbour(c),
         9 => {
             // the node's own address changes within the subnet (the neighbour cache is flushed)
             let host = if c.my_addr == ip_of(c.v6, 1) { 2 } else { 1 };
